@@ -76,8 +76,12 @@ BasicPlanOf(r) ==
 
 \* the set of reasons for which the specification cannot explain the recorded run ({} = accepted)
 RunWhys(r) ==
-  LET ds == DocShapeWhy(r) IN
-  IF ds # ""
+  LET ds == DocShapeWhy(r)
+      a  == DepAdj(r.cfg)
+      V  == IF r.mode = "targets_deps" THEN Closure(a, RangeOf(r.named)) ELSE TPaths(r.cfg)
+  IN
+  IF r.doc.ok /\ r.mode # "targets" /\ Cyclic(a, V) THEN {"C09:run executed a cyclic configuration"}
+  ELSE IF ds # ""
   THEN {ds} \cup ({Fold(BasicPlanOf(r), FALSE, r.events).why} \ {""})
   ELSE LET pl  == PlanOf(r)
            acc == Fold(pl, TRUE, r.events)
@@ -88,7 +92,7 @@ RunWhys(r) ==
 RejectWhy(r) ==
   LET a == DepAdj(r.cfg)
       V == IF r.mode = "targets_deps" THEN Closure(a, RangeOf(r.named)) ELSE TPaths(r.cfg)
-  IN IF ~Cyclic(a, V) THEN "harness: reject record for an acyclic case"
+  IN IF ~Cyclic(a, V) THEN (IF Cyclic(a, TPaths(r.cfg)) THEN "" ELSE "C03:run rejected an acyclic configuration")
      ELSE IF r.rc = 0 \/ r.err # "graph" THEN "C09:cyclic configuration not rejected with a graph error"
      ELSE IF Len(r.events) # 0 THEN "C09:an executable was started for a cyclic configuration"
      ELSE ""
